@@ -380,9 +380,188 @@ def r1(ctx):
     ctx.require(n >= 25, f"only {n} literal processor closures analysed")
 
 
+# ---------------------------------------------------------------------- small propositional helper
+_NEG_CMP = {ast.IsNot: ast.Is, ast.NotEq: ast.Eq, ast.NotIn: ast.In}
+
+
+def _bool_leaves(test: ast.expr, subst: Optional[Dict[str, ast.expr]] = None, out=None) -> List[str]:
+    """Leaf propositions (normalised text) of the and/or/not skeleton of a condition.  `x is not y`,
+    `x != y`, `x not in y` are the negations of the leaves `x is y`, `x == y`, `x in y`.  A bare local name
+    that is bound exactly once in the function (`subst`) stands for the expression it was bound to."""
+    out = [] if out is None else out
+    if isinstance(test, ast.UnaryOp) and isinstance(test.op, ast.Not):
+        return _bool_leaves(test.operand, subst, out)
+    if isinstance(test, ast.BoolOp):
+        for v in test.values:
+            _bool_leaves(v, subst, out)
+        return out
+    if subst and isinstance(test, ast.Name) and test.id in subst:
+        return _bool_leaves(subst[test.id], subst, out)
+    if isinstance(test, ast.Compare) and len(test.ops) == 1 and type(test.ops[0]) in _NEG_CMP:
+        test = ast.Compare(left=test.left, ops=[_NEG_CMP[type(test.ops[0])]()], comparators=test.comparators)
+    t = unparse(test)
+    if t not in out:
+        out.append(t)
+    return out
+
+
+def _bool_eval(test: ast.expr, asg: Dict[str, bool], subst: Optional[Dict[str, ast.expr]] = None) -> bool:
+    if isinstance(test, ast.UnaryOp) and isinstance(test.op, ast.Not):
+        return not _bool_eval(test.operand, asg, subst)
+    if isinstance(test, ast.BoolOp):
+        vals = [_bool_eval(v, asg, subst) for v in test.values]
+        return all(vals) if isinstance(test.op, ast.And) else any(vals)
+    if subst and isinstance(test, ast.Name) and test.id in subst:
+        return _bool_eval(subst[test.id], asg, subst)
+    if isinstance(test, ast.Compare) and len(test.ops) == 1 and type(test.ops[0]) in _NEG_CMP:
+        pos = ast.Compare(left=test.left, ops=[_NEG_CMP[type(test.ops[0])]()], comparators=test.comparators)
+        return not asg[unparse(pos)]
+    return asg[unparse(test)]
+
+
+def _assignments(leaves: List[str]):
+    import itertools
+    for bits in itertools.product((False, True), repeat=len(leaves)):
+        yield dict(zip(leaves, bits))
+
+
+def _single_bindings(fn: ast.AST) -> Dict[str, ast.expr]:
+    """Local names bound exactly once in the function by a plain `name = <expr>` (aliases of a condition)."""
+    seen: Dict[str, List] = {}
+    for n, v, st in name_stores(fn, into_nested=False):
+        seen.setdefault(n, []).append(v)
+    params = {a.arg for a in fn.args.args + fn.args.kwonlyargs + fn.args.posonlyargs} if hasattr(fn, "args") else set()
+    return {n: vs[0] for n, vs in seen.items() if len(vs) == 1 and vs[0] is not None and n not in params
+            and isinstance(vs[0], (ast.Attribute, ast.Compare, ast.BoolOp, ast.UnaryOp))}
+
+
+def _outcome_implies(guards: List[Tuple[ast.expr, bool]], subst, holds) -> bool:
+    """Do the branch outcomes `guards` (a conjunction of (test, outcome)) imply `holds(assignment)` -- for every
+    truth assignment of the leaf propositions under which all tests take the given outcome?"""
+    leaves: List[str] = []
+    for t, pol in guards:
+        _bool_leaves(t, subst, leaves)
+    if len(leaves) > 12:
+        return False
+    for asg in _assignments(leaves):
+        if all(_bool_eval(t, asg, subst) == pol for t, pol in guards) and not holds(asg):
+            return False
+    return True
+
+
+def _is_backslash_doubling(cc: ast.Call) -> bool:
+    return (call_name(cc) or "").endswith(".replace") and len(cc.args) == 2 and isinstance(cc.args[0], ast.Constant) \
+        and cc.args[0].value == "\\" and isinstance(cc.args[1], ast.Constant) and cc.args[1].value == "\\\\"
+
+
+def _check_backslash_override(ctx, f: FuncInfo) -> Tuple[bool, str, Optional[List[str]]]:
+    """`render_literal_value` of a dialect with backslash escapes.  Necessary clauses:
+      (a) every path that obtains the generic rendering from super() reaches the normal exit through the
+          backslash doubling -- the only branch outcomes that may bypass it are those that imply that
+          `_backslash_escapes` is false or that the rendered text contains no backslash;
+      (b) the doubling is applied to the text returned by super() (not to the Python value), after that call;
+      (c) what is returned afterwards is the doubled text."""
+    from ..astutil import own_exprs
+    g = ctx.cfg(f)
+    fn = f.node
+    subst = _single_bindings(fn)
+    sup = g.find_calls("render_literal_value")
+    sup = [s for s in sup if any((call_name(c) or "").startswith("super().") for part in own_exprs(g.nodes[s].stmt)
+                                 for c in calls_in(part))] if sup else []
+    rep = [n.id for n in g.nodes if n.stmt is not None and isinstance(n.stmt, ast.stmt) and n.kind == "stmt" and any(
+        _is_backslash_doubling(cc) for part in own_exprs(n.stmt) for cc in calls_in(part))]
+    if not sup:
+        return False, "does not call super().render_literal_value()", None
+    if not rep:
+        return False, "does not double backslashes", None
+
+    # receiver of the doubling / where its result goes
+    recv_names, result_names = set(), set()
+    for r in rep:
+        st = g.nodes[r].stmt
+        for part in own_exprs(st):
+            for cc in calls_in(part):
+                if _is_backslash_doubling(cc):
+                    rv = cc.func.value
+                    if isinstance(rv, ast.Name):
+                        recv_names.add(rv.id)
+                    elif not (isinstance(rv, ast.Call) and (call_name(rv) or "").startswith("super().")):
+                        return False, f"backslash doubling applied to `{unparse(rv)[:50]}`, not to the text rendered by super()", None
+        if isinstance(st, ast.Assign) and len(st.targets) == 1 and isinstance(st.targets[0], ast.Name):
+            result_names.add(st.targets[0].id)
+        elif isinstance(st, ast.Return):
+            pass
+        else:
+            return False, f"result of the backslash doubling is discarded (`{unparse(st)[:60]}`)", None
+
+    def flag_leaf(t: str) -> bool:
+        return t.endswith("._backslash_escapes") or t == "_backslash_escapes"
+
+    def text_leaf(t: str) -> bool:
+        return any(t == f"'\\\\' in {n}" for n in recv_names)
+
+    def bypass_ok(test: ast.expr, outcome: bool) -> bool:
+        return _outcome_implies(
+            [(test, outcome)], subst,
+            lambda asg: any((flag_leaf(k) or text_leaf(k)) and v is False for k, v in asg.items()))
+
+    def edge_ok(a, b, lab):
+        if lab == "exc":
+            return False
+        n = g.nodes[a]
+        if n.kind == "test" and lab in ("true", "false") and bypass_ok(n.stmt.test, lab == "true"):
+            return False
+        return True
+
+    # (b) the receiver holds the super() rendering
+    for nm in recv_names:
+        stores = [(v, st) for n, v, st in name_stores(fn, into_nested=False) if n == nm]
+        for v, st in stores:
+            from_super = isinstance(v, ast.Call) and (call_name(v) or "").startswith("super().") and \
+                (call_name(v) or "").endswith("render_literal_value")
+            from_self = isinstance(v, ast.Call) and isinstance(v.func, ast.Attribute) and isinstance(v.func.value, ast.Name) \
+                and v.func.value.id in recv_names and v.func.attr == "replace"
+            if not (from_super or from_self):
+                return False, (f"backslash doubling is applied to `{nm}`, which is also bound to `{unparse(v)[:50] if v is not None else '?'}` "
+                               f"(not the text rendered by super())"), None
+        if not any(isinstance(v, ast.Call) and (call_name(v) or "").startswith("super().") for v, st in stores):
+            return False, f"backslash doubling is applied to `{nm}`, which is not the text rendered by super() (e.g. the Python value)", None
+    for r in rep:
+        w = g.always_preceded(r, sup)
+        if w is not None:
+            return False, "backslash doubling can run before / without the generic rendering by super()", w
+    # (a) no bypass while the flag may be set
+    live = g.reachable([g.entry], edge_ok=edge_ok)
+    for s in sup:
+        if s in rep or s not in live:
+            continue
+        w = g.must_pass([s], [g.exit], rep, edge_ok=edge_ok)
+        if w is not None:
+            tests = [unparse(g.nodes[a].stmt.test)[:80] for a in g.reachable([s], avoid=rep, edge_ok=edge_ok)
+                     if g.nodes[a].kind == "test"]
+            return False, ("the text rendered by super() can be returned without backslash doubling although "
+                           "_backslash_escapes may be set"
+                           + (f": the doubling is additionally conditioned by `{tests[0]}`, which does not follow from "
+                              f"the flag (the rendered text of any value type can contain a backslash)" if tests else "")), w
+    # (c) the doubled text is what is returned
+    after = g.reachable(rep, edge_ok=lambda a, b, lab: lab != "exc")
+    for nid in after:
+        st = g.nodes[nid].stmt
+        if isinstance(st, ast.Return) and nid not in rep:
+            ok = isinstance(st.value, ast.Name) and st.value.id in (result_names | recv_names) and st.value.id in result_names
+            if not ok:
+                return False, f"after doubling the backslashes `{unparse(st)[:60]}` returns something else", None
+    # the flag must be consulted at all (doubling unconditionally would corrupt literals when the flag is off)
+    for r in rep:
+        gs = g.edge_guards(r)
+        if not _outcome_implies(gs, subst, lambda asg: any(flag_leaf(k) and v is True for k, v in asg.items())):
+            return False, "backslash doubling is not conditioned on _backslash_escapes", None
+    return True, "super() rendering -> doubling under the flag on every path -> returned", None
+
+
 @R.rule("C05-R2", floor=6, template="T-SIBLING",
-        desc="dialects with backslash escapes double backslashes after the generic literal rendering; the three "
-             "percent-doubling sites agree")
+        desc="dialects with backslash escapes double backslashes in the text rendered by super(), for every value, "
+             "on every path where the flag can be set; the percent-doubling sites agree")
 def r2(ctx):
     # every dialect class that assigns _backslash_escapes must have a compiler overriding render_literal_value
     for c in ctx.index.all_classes():
@@ -401,22 +580,9 @@ def r2(ctx):
                 ctx.violation(key, f"{c.name} supports backslash escapes but its compiler does not override "
                                    f"render_literal_value: a `\\'` in a string literal would end the literal", comp_cls.loc)
                 continue
-            g = ctx.cfg(f)
-            sup = g.find_calls("render_literal_value")
-            from ..astutil import own_exprs
-            rep = [n.id for n in g.nodes if n.stmt is not None and isinstance(n.stmt, ast.stmt) and n.kind == "stmt" and any(
-                (call_name(cc) or "").endswith(".replace") and len(cc.args) == 2 and isinstance(cc.args[0], ast.Constant)
-                and cc.args[0].value == "\\" and isinstance(cc.args[1], ast.Constant) and cc.args[1].value == "\\\\"
-                for part in own_exprs(n.stmt) for cc in calls_in(part))]
-            guards_ok = False
-            order_ok = False
-            if rep and sup:
-                tests = [unparse(t) for t, pol in g.edge_guards(rep[0]) if pol]
-                guards_ok = any("_backslash_escapes" in t for t in tests)
-                order_ok = g.always_preceded(rep[0], sup) is None
-            ctx.check(bool(rep) and guards_ok and order_ok, key,
-                      "render_literal_value does not double backslashes under _backslash_escapes after calling super()",
-                      "super() then replace('\\\\','\\\\\\\\') under the flag", f.loc)
+            ctx.functions_analysed.add(f.key)
+            ok, why, witness = _check_backslash_override(ctx, f)
+            ctx.check(ok, key, f"{comp_cls.name}.render_literal_value: {why}", why, f.loc, witness)
     # percent doubling sites
     sites = [
         ("sql/sqltypes.py::String.literal_processor", "string literals"),
@@ -476,6 +642,113 @@ def r3(ctx):
     ctx.check(not bad and any("CompileError" in r for r in raises), f.key + ":no-fallback",
               f"render_literal_value has a fall-through rendering {bad} or no CompileError for a missing processor",
               "only processor(value) / NULL are rendered; CompileError otherwise", f.loc)
+
+
+# ---------------------------------------------------------------------- None -> SQL NULL short-circuits
+def _is_null_rendering(ctx, mod, e: Optional[ast.expr]) -> bool:
+    """Does the returned expression stand for the SQL NULL keyword / Null() element?"""
+    if e is None:
+        return False
+    if isinstance(e, ast.Constant):
+        return e.value == "NULL"
+    if isinstance(e, ast.Call):
+        nm = call_name(e) or ""
+        if "()" not in nm and nm:
+            r = ctx.index.resolve(mod, nm)
+            if isinstance(r, ClassInfo) and r.key == "sql/elements.py::Null":
+                return True
+            if isinstance(r, FuncInfo) and r.cls is not None and r.cls.key == "sql/elements.py::Null":
+                return True
+            if isinstance(r, FuncInfo) and r.key == "sql/_elements_constructors.py::null":
+                return True
+        if nm.rsplit(".", 1)[-1] == "process" and e.args:
+            return _is_null_rendering(ctx, mod, e.args[0])
+        return False
+    if isinstance(e, (ast.Name, ast.Attribute)):
+        d = dotted(e) or ""
+        if d and "()" not in d:
+            r = ctx.index.resolve(mod, d)
+            if isinstance(r, tuple) and r[0] == "value" and r[2] == "NULLTYPE":
+                return True
+    return False
+
+
+def _type_handle(f: FuncInfo, v_text: str) -> Optional[str]:
+    """The expression through which `f` can see the SQL type of the value `v_text`:
+    `P.type` for a value `P.value`/`P.effective_value` when f reads P.type; a parameter annotated as / named like
+    a TypeEngine for a value that is itself a parameter.  None: an untyped constant coercion (not in the family)."""
+    a = f.node.args
+    allargs = a.posonlyargs + a.args + a.kwonlyargs
+    if "." in v_text:
+        base, attr = v_text.rsplit(".", 1)
+        if attr in ("value", "effective_value") and base in {x.arg for x in allargs}:
+            for n in ast.walk(f.node):
+                if isinstance(n, ast.Attribute) and n.attr == "type" and dotted(n.value) == base:
+                    return base + ".type"
+        return None
+    if v_text not in {x.arg for x in allargs}:
+        return None
+    for x in allargs:
+        ann = unparse(x.annotation) if x.annotation is not None else ""
+        if x.arg != v_text and ("TypeEngine" in ann or x.arg in ("type_", "param_type")):
+            return x.arg
+    return None
+
+
+@R.rule("C05-R4", floor=3, template="T-SIBLING",
+        desc="every site that short-circuits a typed None value to the SQL NULL keyword / Null() does so only when "
+             "the type does not evaluate None itself (`not <type>.should_evaluate_none`), as the bound path does")
+def r4(ctx):
+    from ..astutil import test_atoms
+    mods = [m for m in ctx.index.all_modules() if m.relpath.startswith(("sql/", "dialects/", "engine/", "orm/"))]
+    ctx.require(len(mods) >= 100, f"only {len(mods)} modules in scope")
+    n_sites = 0
+    for m in mods:
+        for f in sorted(ctx.index.all_functions(m), key=lambda x: x.key):
+            if f.type_only or f.is_overload:
+                continue
+            rets = [r for r in returns_of(f.node) if _is_null_rendering(ctx, m, r.value)]
+            if not rets:
+                continue
+            g = ctx.cfg(f)
+            subst = _single_bindings(f.node)
+            for k, r in enumerate(rets):
+                nodes = g.nodes_for(r)
+                if not nodes:
+                    continue
+                guards = g.edge_guards(nodes[0])
+                # value(s) whose None-ness is implied by the guards
+                vs = []
+                for t, pol in guards:
+                    for atom, ap in test_atoms(t, pol):
+                        if ap and atom.endswith(" is None"):
+                            vs.append(atom[: -len(" is None")])
+                handle = None
+                for v in vs:
+                    handle = _type_handle(f, v)
+                    if handle:
+                        vname = v
+                        break
+                if not handle:
+                    continue
+                n_sites += 1
+                ctx.functions_analysed.add(f.key)
+                key = f"{f.key}:none-to-null" + (f"#{k}" if len(rets) > 1 else "")
+                leaf = handle + ".should_evaluate_none"
+                leaves: List[str] = []
+                for t, pol in guards:
+                    _bool_leaves(t, subst, leaves)
+                respects = leaf in leaves and _outcome_implies(
+                    guards, subst,
+                    lambda asg: not (asg.get(leaf) is True and asg.get(handle + " is None", False) is False))
+                ctx.check(
+                    respects, key,
+                    f"`{unparse(r)[:70]}` renders SQL NULL for `{vname} is None` without requiring "
+                    f"`not {leaf}`: for a type that evaluates None (JSON null, evaluates_none(), a TypeDecorator "
+                    f"mapping None) the bound parameter is processed by the type but the literal is NULL "
+                    f"(guards: {[(unparse(t)[:60], p) for t, p in guards]})",
+                    f"NULL short-circuit only when not {leaf}", f"{m.path}:{r.lineno}")
+    ctx.require(n_sites >= 3, f"only {n_sites} typed None->NULL short-circuit sites found")
 
 
 # ---------------------------------------------------------------------- self-test battery
